@@ -285,6 +285,8 @@ void TasmanianSparseGrid::makeFourierGrid(int dimensions, int outputs, int depth
 
 void TasmanianSparseGrid::copyGrid(const TasmanianSparseGrid *source, int outputs_begin, int outputs_end){
     if ((outputs_end < 0) or (outputs_end > source->getNumOutputs())) outputs_end = source->getNumOutputs(); // an end outside of the range means all remaining outputs
+    if ((outputs_begin < 0) or (outputs_begin > outputs_end)) // nothing is changed yet
+        throw std::invalid_argument("ERROR: copyGrid() requires outputs_begin between 0 and the (effective) outputs_end");
     if (source == this){ // clear() would destroy the source, go through a copy
         TasmanianSparseGrid self_copy(*this);
         copyGrid(&self_copy, outputs_begin, outputs_end);
